@@ -48,7 +48,9 @@ Pool == <<
   Format(AsSentence(Sent(B, "Goal", [k |-> "Fixed", n |-> "-7"], <<"1">>))),                      \* 23 a well-formed fixed stamp (after 22 / 24)
   Txt(EndWith(TermToks(A) \o T(F.punct["Judgement"], "t"), "t") \o StampToks([k |-> "Fixed", n |-> "99999999999999999999"])),  \* 24 a fixed stamp that overflows
   Format(AsTerm([k |-> "ImageExtension", c |-> <<B, [k |-> "PlaceholderRaw", raw |-> "who"]>>])),  \* 25 ends with a placeholder glued to name characters
-  Format(AsTerm([k |-> "Inheritance", a |-> W("c"), b |-> OP("d")]))                              \* 26 a statement whose first atom is a plain word (after 25)
+  Format(AsTerm([k |-> "Inheritance", a |-> W("c"), b |-> OP("d")])),                             \* 26 a statement whose first atom is a plain word (after 25)
+  Txt(EndWith(TermToks(A) \o T(F.punct["Question"], "t"), "t") \o TruthToks(<<"0.3", "0.4">>)),      \* 27 a question written with a truth (accepted; the truth is dropped)
+  Format(AsSentence(Sent(B, "Goal", [k |-> "Eternal"], <<>>)))                                   \* 28 a goal without a truth (after 27)
 >>
 
 Init == hist = <<>> /\ slots = EmptyMid /\ outs = <<>>
